@@ -448,6 +448,12 @@ def gen_o_segment(rng, n):
                "s": [rng.choice([-1, 1]) * rng.uniform(0.3, 3) for _ in range(2)]}
 
 
+def _ends_err(pts, e):
+    """distance between the two ends of the sampled arc and the two endpoints, as unordered pairs"""
+    p0, p1, e0, e1 = np.array(pts[0]), np.array(pts[-1]), np.array(e[0]), np.array(e[1])
+    return float(min(max(np.abs(p0 - e0).max(), np.abs(p1 - e1).max()), max(np.abs(p0 - e1).max(), np.abs(p1 - e0).max())))
+
+
 def _arc_points(c, r, th, cnt=7):
     t0, t1 = th
     while t1 < t0:
@@ -492,8 +498,7 @@ def run_o_segment(inp):
         out["deg_rad"] = float(np.max(np.abs(thd * math.pi / 180 - thr)))
         pts, extent = _arc_points(np.array(cr, dtype=float), float(rr), thr)
         out["extent"] = float(extent)
-        ends = sorted([pts[0].tolist(), pts[-1].tolist()])
-        out["arc_ends"] = float(np.max(np.abs(np.array(ends) - np.array(sorted(e.tolist())))))
+        out["arc_ends"] = _ends_err(pts, e)
         if model == "poincare":
             out["inside"] = float(max(np.linalg.norm(p) for p in pts) - 1)
         else:
@@ -585,7 +590,7 @@ def run_o_horo(inp):
             pts, extent = _arc_points(ac, ar, th, 9)
             e = np.array(arc.endpoint_coords(model), dtype=float)
             ic = np.array(H.Point(c.proj_data.copy()).coords(model), dtype=float)
-            out["arc_" + model] = {"ends": float(np.max(np.abs(np.array(sorted([pts[0].tolist(), pts[-1].tolist()])) - np.array(sorted(e.tolist()))))),
+            out["arc_" + model] = {"ends": _ends_err(pts, e),
                                    "min_to_ideal": float(min(np.linalg.norm(p - ic) for p in pts)),
                                    "end_to_ideal": float(min(np.linalg.norm(x - ic) for x in e)), "rad": ar}
     return out
@@ -739,7 +744,7 @@ def run_o_composite(inp):
             if dim == 2:
                 pts, extent = _arc_points(c[j], float(r[j]), th[j])
                 rec["extent"] = float(extent)
-                rec["arc_ends"] = float(np.max(np.abs(np.array(sorted([pts[0].tolist(), pts[-1].tolist()])) - np.array(sorted(e[j].tolist())))))
+                rec["arc_ends"] = _ends_err(pts, e[j])
                 rec["inside"] = float(max(np.linalg.norm(q) for q in pts) - 1) if model == "poincare" else float(-min(q[1] for q in pts))
                 if inp["kind"] == "segment":
                     A, B = H.Point(flatU[j, 0].copy(), model="klein"), H.Point(flatU[j, 1].copy(), model="klein")
@@ -825,7 +830,7 @@ def run_o_polygon(inp):
             e = np.array([np.array(A.coords(model), dtype=float), np.array(B.coords(model), dtype=float)])
             pts, extent = _arc_points(c[j], float(r[j]), th[j])
             scale = (1 + r[j]) * (1 + np.abs(c[j]).max())
-            worst["ends"] = max(worst["ends"], float(np.max(np.abs(np.array(sorted([pts[0].tolist(), pts[-1].tolist()])) - np.array(sorted(e.tolist()))))) / scale)
+            worst["ends"] = max(worst["ends"], _ends_err(pts, e) / scale)
             ins = (max(np.linalg.norm(q) for q in pts) - 1) if model == "poincare" else -min(q[1] for q in pts)
             worst["inside"] = max(worst["inside"], float(ins) / scale)
             tot = _d(A, B)
@@ -907,7 +912,7 @@ def run_o_horo_comp(inp):
                 for j in range(k):
                     pts, _ = _arc_points(ac[j], float(ar[j]), th[j], 9)
                     sc = (1 + ar[j]) ** 2
-                    worst_end = max(worst_end, float(np.max(np.abs(np.array(sorted([pts[0].tolist(), pts[-1].tolist()])) - np.array(sorted(e[j].tolist()))))) / sc)
+                    worst_end = max(worst_end, _ends_err(pts, e[j]) / sc)
                     worst_side = max(worst_side, (min(np.linalg.norm(x - ic[j]) for x in e[j]) - min(np.linalg.norm(q - ic[j]) for q in pts)) / sc)
                 out["models"]["arc_" + model] = {"ends": worst_end, "side": float(worst_side)}
     return out
